@@ -33,6 +33,7 @@ type RemoteCase struct {
 	LinkErr string            `json:"linkerr"`           // "" = link healthy
 	Names   map[string]string `json:"names,omitempty"`   // dotted field path -> function name seen on the wire
 	E2E     map[string]string `json:"e2e,omitempty"`     // dotted field path -> path of the method that ran on a real peer
+	LinkErr2 string           `json:"linkerr2,omitempty"` // the outcome of linking the same registry a second time (rejected definitions)
 	Enum    []string          `json:"enum,omitempty"`    // disagreements between ForRemotes and the connect/disconnect notifications
 }
 
@@ -231,6 +232,26 @@ func runRemote[R any](name string) RemoteCase {
 		}
 		probe("after the link's context was cancelled")
 	}
+	// a rejected definition is rejected on every link of the registry, not only on the first
+	relink := func() string {
+		ctx2, cancel2 := context.WithCancel(context.Background())
+		defer cancel2()
+		e2 := make(chan error, 1)
+		go func() {
+			e2 <- reg.LinkMessage(ctx2,
+				func(b json.RawMessage) error { return nil }, func(b json.RawMessage) error { return nil },
+				func() (json.RawMessage, error) { <-ctx2.Done(); return nil, ctx2.Err() },
+				func() (json.RawMessage, error) { <-ctx2.Done(); return nil, ctx2.Err() },
+				func(v any) (json.RawMessage, error) { b, err := json.Marshal(v); return b, err },
+				func(d json.RawMessage, v any) error { return json.Unmarshal(d, v) }, nil)
+		}()
+		select {
+		case err := <-e2:
+			return errText(err)
+		case <-time.After(time.Second):
+			return "NO-ERROR: the second link of the same registry stays up"
+		}
+	}
 	frames := make(chan string, 64)
 	linkErr := make(chan error, 1)
 	go func() {
@@ -260,6 +281,7 @@ func runRemote[R any](name string) RemoteCase {
 			waitConnect()
 			probe("the link was rejected (" + rc.LinkErr + ") but its reads have not returned yet")
 			finish()
+			rc.LinkErr2 = relink()
 			return rc
 		default:
 		}
@@ -273,6 +295,7 @@ func runRemote[R any](name string) RemoteCase {
 		waitConnect()
 		probe("the link was rejected (" + rc.LinkErr + ") but its reads have not returned yet")
 		finish()
+		rc.LinkErr2 = relink()
 		return rc
 	case <-time.After(20 * time.Millisecond):
 	}
@@ -439,6 +462,31 @@ func (l *lvN) Close(ctx context.Context, x int) (int, error)      { l.r.hit("Clo
 func (n lvNN) CallClosure(ctx context.Context) error              { n.r.hit("N.CallClosure"); return nil }
 func (n lvNN) ForRemotes(ctx context.Context, x int) (int, error) { n.r.hit("N.ForRemotes"); return x, nil }
 
+// the peer reaches the nested service through a field promoted from an embedded struct (legal Go: svc.Store.Get);
+// the embedded struct has a method of the same name as a decoy
+type rdPromoted struct {
+	Store struct {
+		Get fOK
+		Put fE
+	}
+	Own fE
+}
+type lvP struct {
+	r *pathRec
+	lvPbase
+}
+type lvPbase struct {
+	r     *pathRec
+	Pad   int
+	Store lvPS
+}
+type lvPS struct{ r *pathRec }
+
+func (l *lvP) Own(ctx context.Context) error                    { l.r.hit("Own"); return nil }
+func (b lvPbase) Get(ctx context.Context, x int) (int, error)   { b.r.hit("base.Get"); return x, nil }
+func (s lvPS) Get(ctx context.Context, x int) (int, error)      { s.r.hit("Store.Get"); return x, nil }
+func (s lvPS) Put(ctx context.Context) error                    { s.r.hit("Store.Put"); return nil }
+
 func runRemoteE2E[R any](name string, local any, rec *pathRec) RemoteCase {
 	var zero R
 	rc := RemoteCase{Def: name, Desc: describeRemote("", reflect.TypeOf(zero)), E2E: map[string]string{}}
@@ -517,10 +565,11 @@ func hasUnusableFuncParam(t reflect.Type) bool {
 }
 
 func RunRemotes() []RemoteCase {
-	r1, r2, r3, r4 := newPathRec(), newPathRec(), newPathRec(), newPathRec()
+	r1, r2, r3, r4, r5 := newPathRec(), newPathRec(), newPathRec(), newPathRec(), newPathRec()
 	e2e := []RemoteCase{
 		runRemoteE2E[rdEmbedded]("embedded/e2e", &lvE{r: r3, RdBase: lvEB{r3, ""}, Tail: &lvET{r: r3, RdBase: lvEB{r3, "Tail."}}}, r3),
 		runRemoteE2E[rdValid1]("valid1/e2e", &lv1{r: r1, N: &lv1N{r: r1, D: lv1D{r1}}}, r1),
+		runRemoteE2E[rdPromoted]("promoted/e2e", &lvP{r: r5, lvPbase: lvPbase{r: r5, Store: lvPS{r5}}}, r5),
 		runRemoteE2E[rdNames]("names/e2e", &lvN{r: r4, N: lvNN{r4}}, r4),
 		runRemoteE2E[rdValid2]("valid2/e2e", &lv2{r: r2, First: lv2F{r2}, Last: &lv2L{r: r2, In: &lv2I{r2}}}, r2),
 	}
@@ -531,7 +580,7 @@ func RunRemotes() []RemoteCase {
 		runRemote[rdTwoBad]("twobad"), runRemote[rdTwoBad2]("twobad2"), runRemote[rdBothBad]("bothbad"), runRemote[rdChan]("chan-map-ptr"),
 		runRemote[sysRemote]("sysremote"), runRemote[epRemote]("epremote"),
 		runRemote[rdEmbedded]("embedded"), runRemote[rdAnyFirst]("anyfirst"), runRemote[rdWiderCtx]("widerctx"),
-		runRemote[rdNames]("names"), runRemote[rdUnexpRet]("unexp-ret"), runRemote[rdUnexpArgs]("unexp-args"),
+		runRemote[rdNames]("names"), runRemote[rdPromoted]("promoted"), runRemote[rdUnexpRet]("unexp-ret"), runRemote[rdUnexpArgs]("unexp-args"),
 	}
 	out = append(out, e2e...)
 	sort.Slice(out, func(i, j int) bool { return out[i].Def < out[j].Def })
